@@ -260,6 +260,27 @@ Proof. vm_compute. repeat split. Qed.
 Example C20_ex_bounded : bounded [(1%Z, [ex_stalled; ex_ok; ex_stalled; ex_nocommit])].
 Proof. split; [vm_compute; discriminate|]. repeat constructor; vm_compute; discriminate. Qed.
 
+(* the documented helpers as string / number holes: maxlag (nil-safe), integer maths, formattimestamp; a division by
+   anything but a non-zero literal is rejected (it can fail) *)
+Example C20_ex_helpers :
+  let t := [NText "{""max_lag"":"; NAction [CCall "maxlag" [AField ["Result"; "Maxlag"]]];
+            NText ",""piped"":"; NAction [CArgs (AField ["Result"; "Maxlag"]) []; CCall "maxlag" []];
+            NText ",""ok"":"; NAction [CCall "minus" [AField ["Result"; "TotalPartitions"]; AInt 1]];
+            NText ",""half"":"; NAction [CCall "divide" [AField ["Result"; "TotalPartitions"]; AInt 2]];
+            NText ",""when"":"""; NAction [CCall "formattimestamp" [AInt 1500000000000; AStr "2006-01-02"]]; NText """}"] in
+  let bad_div := [NAction [CCall "divide" [AInt 1; AField ["Result"; "TotalPartitions"]]]] in
+  typecheck burrow_schema t burrow_facts = true /\ json_skeleton_ok burrow_schema burrow_facts t = true /\
+  typecheck burrow_schema bad_div burrow_facts = false /\
+  typecheck burrow_schema [NAction [CCall "add" [AField ["Result"; "TotalLag"]; AInt 1]]] burrow_facts = false /\
+  match Eval.eval_group [] F32.f32_zero 0 3, Eval.eval_group [(1%Z, [ex_stalled])] F32.f32_zero 0 3 with
+  | Eval.Ok g0, Eval.Ok g1 =>
+      (exists out, exec burrow_schema t (data_of burrow_schema ex_nm "c" "g" "i" [] (Eval.filter_view g0)) = Ok out /\ pieces_valid out = true) /\
+      (exists out, exec burrow_schema t (data_of burrow_schema ex_nm "c" "g" "i" [] (Eval.filter_view g1)) = Ok out /\ pieces_valid out = true) /\
+      exec burrow_schema bad_div (data_of burrow_schema ex_nm "c" "g" "i" [] (Eval.filter_view g0)) = Err "integer divide by zero"
+  | _, _ => False
+  end.
+Proof. vm_compute. repeat split; eexists; split; reflexivity. Qed.
+
 (* two modules sharing files: each renders its own open and close template *)
 Example C20_ex_configured_modules :
   let cfg := [mkModcfg "pager" "default-http-post.tmpl" "default-http-delete.tmpl" true;
